@@ -16,31 +16,15 @@ sys.path.insert(0, os.path.dirname(os.path.abspath(__file__)))
 from _util import *
 
 
-class Color(enum.Enum):
-    RED = 'red'
-    BLUE = 'Blue'
-    EMPTY = ''
+from c04_types import *
+import c04_types
 
 
-class Num(enum.Enum):
-    ZERO = 0
-    ONE = 1
-    TWO = 2
-
-
-class SColor(str, enum.Enum):
-    SRED = 'red'
-    SBLUE = 'Blue'
-
-
-class Mode(enum.StrEnum):
-    FAST = 'fast'
-    SLOW = 'Slow'
-
-
-SCALARS = {'enum:SColor': SColor, 'enum:Mode': Mode, 'uuid': uuid.UUID, 'str': str, 'int': int, 'float': float, 'bool': bool, 'bytes': bytes, 'datetime': datetime.datetime,
+SCALARS = {'uuid': uuid.UUID, 'str': str, 'int': int, 'float': float, 'bool': bool, 'bytes': bytes, 'datetime': datetime.datetime,
            'date': datetime.date, 'time': datetime.time, 'timedelta': datetime.timedelta,
-           'decimal': decimal.Decimal, 'enum:Color': Color, 'enum:Num': Num}
+           'decimal': decimal.Decimal}
+SCALARS.update(c04_types.ENUM_CLASSES)
+SCALARS.update(c04_types.SUB_CLASSES)
 
 
 _gen = [0]
@@ -149,12 +133,22 @@ def enc(v, sort=False):
         return 'N'
     if t is bool:
         return 'B1' if v else 'B0'
+    if isinstance(v, enum.Enum):
+        return 'M%s;' % hx(c04_types.enum_name(v))
+    for base in (c04_types.BASES if t not in c04_types.BASES else ()):
+        if isinstance(v, base):
+            # instance of a user subclass: class name + the value as the base type sees it
+            return 'X%s:%s' % (hx(t.__name__), enc_base(base, v))
+    return enc_base(t, v, sort)
+
+
+def enc_base(t, v, sort=False):
     if t is int:
-        return 'I%d;' % v
+        return 'I%d;' % int(v)
     if t is float:
-        return 'F%s;' % enc_float(v)
+        return 'F%s;' % enc_float(float(v))
     if t is str:
-        return 'S%s;' % hx(v)
+        return 'S%s;' % hx(str.__str__(v))
     if t is bytes:
         return 'Y%s;' % hx(v)
     if t is list:
@@ -181,8 +175,6 @@ def enc(v, sort=False):
         return 'Pdec%s;' % hx(str(v))
     if t is uuid.UUID:
         return 'Pu%s;' % hx(str(v))
-    if isinstance(v, enum.Enum):
-        return 'M%s;' % hx(v.name)
     if isinstance(v, tuple) and hasattr(v, '_fields'):
         return 'NT[%s]' % ''.join(enc(x, sort) for x in v)
     if dataclasses.is_dataclass(v):
@@ -194,19 +186,26 @@ _cls = {}
 _n = [0]
 
 
+def root_fields(tyd):
+    """['root', [[name, t]...]]: the ROOT class itself has several fields (one generated load function for all)"""
+    if isinstance(tyd, list) and tyd and tyd[0] == 'root':
+        return [(n, t) for n, t in tyd[1]]
+    return [('c04v', tyd)]
+
+
 def get_cls(tyd, eng):
     key = (repr(tyd), eng)
     if key in _cls:
         return _cls[key]
     _n[0] += 1
     _eng[0] = eng
-    tp = mk_type(tyd)
+    fields = [(n, mk_type(t)) for n, t in root_fields(tyd)]
     if eng == 'env':
         from dataclass_wizard import EnvWizard
-        cls = type('E%d' % _n[0], (EnvWizard,), {'__annotations__': {'c04v': tp}})
+        cls = type('E%d' % _n[0], (EnvWizard,), {'__annotations__': dict(fields)})
     else:
         from dataclass_wizard import LoadMeta
-        cls = dataclasses.make_dataclass('K%d' % _n[0], [('c04v', tp)])
+        cls = dataclasses.make_dataclass('K%d' % _n[0], fields)
         if eng == 'v1':
             LoadMeta(v1=True).bind_to(cls)
     _cls[key] = cls
@@ -231,6 +230,9 @@ def kind(e):
 def run_one(tyd, val, eng):
     from dataclass_wizard import fromdict
     val = decode_val(val)
+    multi = isinstance(tyd, list) and tyd and tyd[0] == 'root'
+    names = [n for n, _ in root_fields(tyd)]
+    doc = val if multi else {'c04v': val}
     try:
         cls = get_cls(tyd, eng)
     except BaseException as e:  # generation of the loader failed
@@ -239,17 +241,20 @@ def run_one(tyd, val, eng):
         return d
     try:
         if eng == 'env':
-            if isinstance(val, str):
-                os.environ['C04V'] = val
-                try:
-                    r = cls(_reload=True).c04v
-                finally:
-                    del os.environ['C04V']
-            else:
-                r = cls(c04v=val).c04v
+            envv = {n.upper(): x for n, x in doc.items() if isinstance(x, str)}
+            kw = {n: x for n, x in doc.items() if not isinstance(x, str)}
+            os.environ.update(envv)
+            try:
+                inst = cls(_reload=True, **kw)
+            finally:
+                for k in envv:
+                    del os.environ[k]
         else:
-            r = fromdict(cls, {'c04v': val}).c04v
-        return {'ok': enc(r), 'ok_sorted': enc(r, True)}
+            inst = fromdict(cls, dict(doc))
+        r = [getattr(inst, n) for n in names]
+        if multi:
+            return {'ok': 'DC[%s]' % ''.join(enc(x) for x in r), 'ok_sorted': 'DC[%s]' % ''.join(enc(x, True) for x in r)}
+        return {'ok': enc(r[0]), 'ok_sorted': enc(r[0], True)}
     except BaseException as e:
         d = err_info(e)
         be = getattr(e, 'base_error', None)
